@@ -231,6 +231,7 @@ struct P_C03
     {
         rx::Parsed p = rx::parse_pattern(c.pat);
         if (p.cls != rx::VALID) return Verdict::discard(std::string("generator-nonvalid:") + p.why);
+        if (rx::construction_explodes(p.ast)) return Verdict::discard("nested-repetition-of-nullable-body(construction time)");
         rx::Dfa spec;
         if (!rx::ast_to_dfa(p.ast, spec)) return Verdict::discard("spec-too-big");
         Built b = build_real(c.pat, true);
@@ -239,7 +240,7 @@ struct P_C03
         if (b.threw) { det.set("exception", b.exc); return Verdict::fail("construction threw for a pattern in the documented syntax", det); }
         if (!b.predicted_ok || !b.accepted) return Verdict::fail("pattern in the documented syntax was refused", det);
         std::string w; bool inconcl = false;
-        bool eq = rx::equivalent(spec, b.dfa, w, 400000, &inconcl);
+        bool eq = rx::equivalent(spec, b.dfa, w, 60000, &inconcl);
         if (inconcl) return Verdict::discard("comparison-too-big");
         bool nontrivial = p.ops >= 1 && (p.ops >= 2 || p.ast.nodes.size() >= 3);
         uint64_t h = eng::hstr(c.pat);
@@ -267,7 +268,9 @@ struct P_C03
             m.mark_end_states(whole, 0);
             rx::Dfa md; m.to_dfa(md);
             std::string w2;
-            bool same_as_model = rx::equivalent(md, b.dfa, w2);
+            bool inc2 = false;
+            bool same_as_model = rx::equivalent(md, b.dfa, w2, 60000, &inc2);
+            if (inc2) return Verdict::discard("comparison-too-big");
             if (same_as_model && eng::args().is_known("F5")) { account("known:F5"); return Verdict::known("F5"); }
             det.set("same_as_model_of_pinned_construction", same_as_model);
             if (!same_as_model) { det.set("model_witness_hex", vj::hex(w2)); }
@@ -305,6 +308,7 @@ struct P_C12a
     {
         rx::Parsed p = rx::parse_pattern(c.pat);
         if (p.cls != rx::VALID) return Verdict::discard("generator-nonvalid");
+        if (rx::construction_explodes(p.ast)) return Verdict::discard("nested-repetition-of-nullable-body(construction time)");
         Built b = build_real(c.pat, false);
         vj::Value det = vj::Value::object(); det.set("pattern", c.pat);
         if (b.predicted_ok && b.predicted > CAP) return Verdict::discard("too-big-for-builder-capacity");
@@ -358,6 +362,7 @@ struct P_C17a
     static Verdict eval(const Case& c, Stats& st)
     {
         rx::Parsed p = rx::parse_pattern(c.pat);
+        if (p.ok && rx::construction_explodes(p.ast)) return Verdict::discard("nested-repetition-of-nullable-body(construction time)");
         vb::HeapCBuffer buf(c.pat);
         bool an_val = false, bl_val = false, an_threw = false, bl_threw = false; std::string exc;
         size_t predicted = 0;
